@@ -158,57 +158,115 @@ func mustFollow(r *core.Run, id, fnName, what string, triggers []guard.Atom, res
 	if fn == nil {
 		return
 	}
-	ck := &guard.Checker{P: r.P, Fn: fn, Res: r.Resolver(fn)}
-	respB := blocksCalling(r, fn, respCalls...)
-	// a call of a helper outside the rule vocabulary counts as the response when every path through the helper
-	// passes a response call or a response condition (the extracted "do X unless already Y" block)
-	for _, b := range fn.Blocks {
-		for _, ins := range b.Instrs {
-			if c, ok := ins.(ssa.CallInstruction); ok {
-				if h := c.Common().StaticCallee(); h != nil && r.P.Transparent(h) && helperResponds(r, fn, c, h, respCalls, respAtoms, 0) {
-					respB[b] = true
+	// A typestate walk through the function and the helpers outside the vocabulary under it: passing a branch edge
+	// on which a trigger condition holds arms the obligation; a response call, or an edge on which a response
+	// condition holds, disarms it; reaching the end of the loop iteration in which it was armed (or, outside
+	// loops, any return of the function) while armed is the violation. Trigger and response may sit in different
+	// functions, or in the same helper.
+	want := set(respCalls...)
+	// loop headers, numbered: state k+2 = armed inside loop k, 1 = armed outside loops
+	hdrIdx := map[*ssa.BasicBlock]int{}
+	hdrFirst := map[ssa.Instruction]int{}
+	innermost := map[*ssa.BasicBlock]int{}
+	for _, g := range transparentClosure(r, fn) {
+		loops := cfgx.Loops(g)
+		for _, l := range loops {
+			k := len(hdrIdx)
+			if k > 200 {
+				break
+			}
+			hdrIdx[l.Header] = k
+			for _, ins := range l.Header.Instrs {
+				if _, isPhi := ins.(*ssa.Phi); !isPhi {
+					hdrFirst[ins] = k
+					break
 				}
 			}
+		}
+		for _, b := range g.Blocks {
+			best := -1
+			bestSize := 0
+			for _, l := range loops {
+				if l.Body[b] && (best < 0 || len(l.Body) < bestSize) {
+					if k, ok := hdrIdx[l.Header]; ok {
+						best, bestSize = k, len(l.Body)
+					}
+				}
+			}
+			innermost[b] = best
 		}
 	}
-	respE := ck.PassEdges(respAtoms)
 	n := 0
 	for _, t := range triggers {
-		edges := ck.PassEdges([]guard.Atom{t})
-		var es []cfgx.Edge
-		for e := range edges {
-			es = append(es, e)
-		}
-		// deterministic order
-		for i := 0; i < len(es); i++ {
-			for j := i + 1; j < len(es); j++ {
-				if es[j].From.Index < es[i].From.Index || (es[j].From.Index == es[i].From.Index && es[j].To.Index < es[i].To.Index) {
-					es[i], es[j] = es[j], es[i]
+		trig := t
+		nTrig := 0
+		rule := &tsRule{r: r,
+			events: func(g *ssa.Function, ins ssa.Instruction, T func(ssa.Value) string) []string {
+				var ev []string
+				if k, ok := hdrFirst[ins]; ok {
+					ev = append(ev, fmt.Sprintf("iter@%d", k))
 				}
-			}
-		}
-		for k, e := range es {
-			n++
-			key := core.Key(id, fnName, what, t.Desc)
-			if k > 0 {
-				key += fmt.Sprintf("#%d", k+1)
-			}
-			hdr := innermostLoopHeader(fn, e.From)
-			stop := func(b *ssa.BasicBlock) bool {
-				if hdr != nil {
-					return b == hdr
+				switch x := ins.(type) {
+				case ssa.CallInstruction:
+					if name, _ := r.Resolver(g).CalleeName(x.Common()); want[name] {
+						ev = append(ev, "resp")
+					}
+				case *ssa.Return:
+					if g == fn {
+						ev = append(ev, "end")
+					}
 				}
-				return isReturnBlock(b)
+				return ev
+			},
+			edges: func(ck *guard.Checker) map[cfgx.Edge]string {
+				m := map[cfgx.Edge]string{}
+				for e := range ck.PassEdges([]guard.Atom{trig}) {
+					m[e] = fmt.Sprintf("trig@%d", innermost[e.From])
+				}
+				for e := range ck.PassEdges(respAtoms) {
+					m[e] = "resp" // an edge that both arms and answers (a helper that tests and reacts) answers
+				}
+				return m
+			},
+			step: func(st uint8, ev string) (uint8, string) {
+				switch {
+				case ev == "resp":
+					return 0, ""
+				case strings.HasPrefix(ev, "trig@"):
+					nTrig++
+					var k int
+					fmt.Sscanf(ev, "trig@%d", &k)
+					if k < 0 {
+						return 1, ""
+					}
+					return uint8(k + 2), ""
+				case strings.HasPrefix(ev, "iter@"):
+					var k int
+					fmt.Sscanf(ev, "iter@%d", &k)
+					if st == uint8(k+2) {
+						return st, "iteration ends unanswered"
+					}
+				case ev == "end":
+					if st != 0 {
+						return st, "returns unanswered"
+					}
+				}
+				return st, ""
+			}}
+		res := rule.run(fn, 0)
+		if nTrig == 0 {
+			continue
+		}
+		n += nTrig
+		key := core.Key(id, fnName, what, t.Desc)
+		if res.bad == "" {
+			r.Discharge(id, key, r.P.FuncPos(fn), "after this condition every path of the iteration passes "+strings.Join(respCalls, "/")+" or a branch excluding the case")
+		} else {
+			pos := r.P.FuncPos(fn)
+			if res.badAt != nil && res.badAt.Pos().IsValid() {
+				pos = r.P.Pos(res.badAt.Pos())
 			}
-			path := forwardAvoid(e.To, respB, respE, stop)
-			if respB[e.To] {
-				path = nil
-			}
-			if path == nil {
-				r.Discharge(id, key, r.P.Pos(lastPos(e.From)), "after this condition every path of the iteration passes "+strings.Join(respCalls, "/")+" or a branch excluding the case")
-			} else {
-				r.Violate(id, key, r.P.Pos(lastPos(e.From)), fmt.Sprintf("%s: after [%s] a path continues without %s", what, t.Desc, strings.Join(respCalls, "/")), append([]string{"path after the condition:"}, ck.RenderPath(append([]*ssa.BasicBlock{e.From}, path...))...)...)
-			}
+			r.Violate(id, key, pos, fmt.Sprintf("%s: after [%s] a path continues without %s (%s)", what, t.Desc, strings.Join(respCalls, "/"), res.bad))
 		}
 	}
 	if n < minTriggers {
